@@ -5,7 +5,7 @@
 From Coq Require Import List Arith Bool Lia.
 Import ListNotations.
 From NV Require Import Vector.Model Vector.History Vector.Wf Vector.HistoryAbs Vector.ListLemmas
-  Vector.NodeProofs Vector.VecProofs Vector.ExtendProofs Vector.SliceProofs.
+  Vector.NodeProofs Vector.VecProofs Vector.ExtendProofs Vector.IterMutProofs Vector.SliceProofs.
 
 (* ---- handle tables *)
 Section Tables.
@@ -131,8 +131,8 @@ Lemma step_refines : forall st o, all_wf B st ->
   /\ all_wf B (fst (istep B st o)).
 Proof.
   intros st o W.
-  destruct o as [ | l | k | k | k x | k | k i x | k i | k n | k l | k i
-                | | l | k | k | k x | k | k i x | k i | k a b | k l | k j | k ];
+  destruct o as [ | l | k | k | k x | k | k i x | k i | k n | k l | k i | k i d
+                | | l | k | k | k x | k | k i x | k i | k a b | k l | k j | k | k d ];
     cbn [istep sstep]; unfold with_v, with_s, swith;
     try rewrite live_absv; try rewrite live_abss.
   - (* VNew *) cbn [fst snd]. rewrite abs_addv. split; [reflexivity|].
@@ -179,6 +179,16 @@ Proof.
     pose proof (live_wfv _ _ _ W E) as Wv0.
     rewrite (viter_from_spec B HB v i Wv0), (wf_length B HB _ Wv0).
     destruct (i <=? vlen v); auto.
+  - (* VMapFrom *)
+    destruct (live (ivs st) k) as [v|] eqn:E; cbn [option_map fst snd]; [|auto].
+    pose proof (live_wfv _ _ _ W E) as Wv0. rewrite (wf_length B HB _ Wv0).
+    destruct (vmap_from_spec B HB (bump d) v i (vlen v) Wv0) as [Hok Hbad].
+    destruct (Nat.leb_spec i (vlen v)) as [Hle|Hgt].
+    + destruct (Hok Hle) as (v' & -> & Wv & Lv & _).
+      cbn [fst snd]. rewrite abs_setv, Lv.
+      rewrite map_take_all by (rewrite skipn_length, (wf_length B HB _ Wv0); lia).
+      split; [reflexivity|]. apply all_wf_setv; assumption.
+    + rewrite (Hbad Hgt). cbn [fst snd]. auto.
   - (* SNew *) cbn [fst snd]. rewrite abs_adds. split; [reflexivity|].
     apply all_wf_adds; [exact W|apply (snew_swf B HB)].
   - (* SFrom *)
@@ -232,6 +242,10 @@ Proof.
   - (* SIter *)
     destruct (live (iss st) k) as [s|] eqn:E; cbn [option_map fst snd]; [|auto].
     rewrite (siter_spec B HB s (live_wfs _ _ _ W E)). auto.
+  - (* SMap *)
+    destruct (live (iss st) k) as [s|] eqn:E; cbn [option_map fst snd]; [|auto].
+    destruct (smap_spec B HB s (bump d) (live_wfs _ _ _ W E)) as (s' & -> & Ws & Ls).
+    cbn [fst snd]. rewrite abs_sets, Ls. split; [reflexivity|]. apply all_wf_sets; assumption.
 Qed.
 
 (* ---- whole histories *)
@@ -256,7 +270,7 @@ Proof. intros ops. apply (run_refines ops iinit iinit_wf). Qed.
    other live handle denotes. *)
 Theorem frame_vec : forall st o j, all_wf B st ->
   match o with
-  | VPush k _ | VPop k | VSet k _ _ | VTrunc k _ | VExtend k _ | VDrop k => j <> k
+  | VPush k _ | VPop k | VSet k _ _ | VTrunc k _ | VExtend k _ | VMapFrom k _ _ | VDrop k => j <> k
   | _ => True
   end ->
   j < length (ivs st) ->
@@ -283,7 +297,7 @@ Qed.
 
 Theorem frame_slice : forall st o j, all_wf B st ->
   match o with
-  | SPush k _ | SPop k | SSet k _ _ | SSlice k _ _ | SExtend k _ | SExtendFrom k _ | SDrop k => j <> k
+  | SPush k _ | SPop k | SSet k _ _ | SSlice k _ _ | SExtend k _ | SExtendFrom k _ | SMap k _ | SDrop k => j <> k
   | _ => True
   end ->
   j < length (iss st) ->
